@@ -241,7 +241,10 @@ func (o *optimizer) etaReduction() {
 				if strings.HasPrefix(recv.Name, cstIterVar) {
 					return true // ɪʇ.MoveNext
 				}
-				if _, isPkg := ctx.ObjectOf(recv).(*types.PkgName); isPkg {
+				// only the runtime package: whether another package can be type-checked here depends on
+				// what has been generated before (packages of the same module processed by the tool),
+				// the output must not depend on it
+				if pkg, isPkg := ctx.ObjectOf(recv).(*types.PkgName); isPkg && pkg.Imported().Path() == pkgSeqPath {
 					id = x.Sel
 				}
 			}
